@@ -85,7 +85,7 @@ func (o *Out) violation(prop, what string, detail map[string]string) {
 	for k, v := range detail {
 		d[k] = v
 	}
-	if len(o.Viol) < 50 {
+	if len(o.Viol) < 3000 {
 		o.Viol = append(o.Viol, d)
 	}
 	o.Stats["harness_violations"]++
